@@ -260,6 +260,15 @@ def emit_heap_frames(c, I, S, ctx, tagsof):
     inf["tags"] = sorted(set(inf["tags"]) | set(c.all_props()) | {"C13", "C19"})
     inf["undeclared_writes"] = sorted(set(bad))
     ctx.oblige(f"{c.qualname}:frame:writes-within-modifies", z3.BoolVal(not bad), kind="frame", info=inf)
+    # the global NumPy generator is shared state: only functions whose contract says so may draw from it, and nobody
+    # re-seeds it (np.random.seed) except the generator's documented `seed` parameter
+    allowed_draws = getattr(c, "may_draw", False)
+    seeds = [d for d in ctx.draws if d[0] == "seed"]
+    nd = [d for d in ctx.draws if d[0] != "seed"]
+    inf = tagsof("frame:rng")
+    inf["tags"] = sorted(set(inf["tags"]) | {"C14", "C12"} | set(c.all_props()))
+    ctx.oblige(f"{c.qualname}:frame:C14.global-rng-used-only-as-declared",
+               z3.BoolVal((allowed_draws or not nd) and (getattr(c, "may_seed", False) or not seeds)), kind="frame", info=inf)
     hr = sorted({f"{getattr(w[1], 'label', None) or w[1]!r}.{w[2]}" for w in ctx.writes if w[0] == "hidden-read"})
     inf = tagsof("frame:heap")
     inf["tags"] = sorted(set(inf["tags"]) | set(c.all_props()) | {"C13", "C19"})
